@@ -601,9 +601,12 @@ def rx_xsd(r: Any, ctx: str = 'alt') -> str:
     return inner + q
 
 
-def rx_random(rng: Any, depth: int = 0) -> Any:
-    """a seeded AST of the subset over a small alphabet"""
+def rx_random(rng: Any, depth: int = 0, in_rep: bool = False) -> Any:
+    """a seeded AST of the subset over a small alphabet (no counted repetition inside a counted repetition: the
+    derivatives of nested counters grow exponentially in the model's matcher)"""
     k = rng.random()
+    if in_rep and k >= 0.75:
+        k = rng.random() * 0.75
     if depth >= 3 or k < 0.35:
         j = rng.random()
         if j < 0.4:
@@ -614,12 +617,12 @@ def rx_random(rng: Any, depth: int = 0) -> Any:
         pool = [(48, 57), (97, 99), (97, 122), (65, 90), (45, 45), (32, 32), (48, 49), (46, 46)]
         return ('cls', rng.random() < 0.2, tuple(rng.sample(pool, rng.randrange(1, 4))))
     if k < 0.6:
-        return ('cat', [rx_random(rng, depth + 1) for _ in range(rng.randrange(2, 4))])
+        return ('cat', [rx_random(rng, depth + 1, in_rep) for _ in range(rng.randrange(2, 4))])
     if k < 0.75:
-        return ('alt', [rx_random(rng, depth + 1) for _ in range(rng.randrange(2, 4))])
+        return ('alt', [rx_random(rng, depth + 1, in_rep) for _ in range(rng.randrange(2, 4))])
     lo = rng.choice([0, 0, 1, 1, 2, 3])
     hi = rng.choice([None, lo, lo + 1, lo + 2])
-    return ('rep', rx_random(rng, depth + 1), lo, hi)
+    return ('rep', rx_random(rng, depth + 1, True), lo, hi)
 
 
 def rx_sample(rng: Any, r: Any, depth: int = 0) -> str:
